@@ -435,7 +435,7 @@ func (w *World) GenUpgrade(rt *rapid.T) GenTx {
 func (w *World) GenAnyTx(rt *rapid.T) GenTx {
 	kinds := []string{"send", "send", "nodeStake", "nodeStake", "nodeUnstake", "nodeUnjail", "appStake", "appTransfer", "appUnstake", "changeParam", "dao"}
 	if w.GovUpgrades {
-		kinds = append(kinds, "upgrade")
+		kinds = append(kinds, "upgrade", "upgrade", "upgrade")
 	}
 	switch rapid.SampledFrom(kinds).Draw(rt, "kind") {
 	case "upgrade":
